@@ -317,6 +317,11 @@ class S:
     def __float__(s):
         raise NotEncodable('float() of a symbolic value')
 
+    def __bool__(s):
+        # truthiness of a real (`if x:`, `x and y`, `not x`): x != 0, a branch like any other comparison
+        r = (s != 0)
+        return r if isinstance(r, bool) else CTX.decide(r)
+
     def __int__(s):
         return sint(s)
 
